@@ -129,7 +129,7 @@ def run_workers(binary, prop, seed, tier, ncases, budget, extra=None, samples=2)
     errs = []
     lock = threading.Lock()
     t_end = time.time() + budget
-    casecpu = CASE_CPU.get(prop)
+    casecpu = CASE_CPU.get(prop, CASE_CPU_DEFAULT)
 
     def slot(i):
         frm = i
@@ -219,7 +219,11 @@ def death_feat(etxt):
     return feats
 
 
-CASE_CPU = {"C03": 60}
+# CPU budget per case (seconds). Cases take milliseconds to a few seconds; a task that never reaches
+# its next hook point (a real spin inside the library) is a violation of termination, reported as
+# class "hang" and confirmed by replaying the case alone with three times the budget.
+CASE_CPU = {"C03": 60, "C18": 240, "C19": 600}
+CASE_CPU_DEFAULT = 45
 # race builds fault so many pages (shadow memory is reset on every free) that more than a few
 # processes only contend in this VM: measured 2.4 cases/s with 1 worker, 2.0 cases/s with 4, 1.9 with 16
 WORKERS = {"C18": 4}
@@ -238,7 +242,14 @@ def shrink_and_confirm(binary, prop, seed, tier, res):
     if "GORACE" not in env:
         env["GORACE"] = "halt_on_error=1 exitcode=66"
     dead = rf["class"] in ("process-died", "hang", "data-race")
-    cpu = ["-casecpu", "%ds" % (5 * CASE_CPU.get(prop, 60))] if dead else []
+    cpu = ["-casecpu", "%ds" % (3 * CASE_CPU.get(prop, CASE_CPU_DEFAULT))] if dead else []
+    if rf["class"] == "hang":
+        # no minimisation (every candidate would cost the whole budget): the case is confirmed by one isolated replay
+        p = subprocess.run([binary, "-replay", path] + cpu, stdout=subprocess.PIPE, stderr=subprocess.PIPE, env=env, timeout=3600)
+        etxt = p.stderr.decode(errors="replace")
+        again = p.returncode == 3 and '"hang"' in etxt
+        final = dict(res)
+        return path, again, final, "" if again else "the case finished (exit %s) when replayed alone with three times the CPU budget" % p.returncode
     if rf["class"] == "data-race":
         # the verdict of the race detector is confirmed by replaying the case alone; no shrinking
         p = subprocess.run([binary, "-replay", path], stdout=subprocess.PIPE, stderr=subprocess.PIPE, env=env, timeout=1800)
@@ -330,10 +341,23 @@ def check(prop, tier, seed):
     harness_err = bool(errs)
 
     # group failures by (class, feat) and handle a few representatives of each group
+    # failures are grouped by violation class and panic site (the codec/shape features are kept for
+    # the attribution to known findings only); at most MAX_GROUPS groups are minimised and confirmed,
+    # the others are listed by count - one confirmed violation is enough to fail the check
     groups = collections.OrderedDict()
     for r in sorted(fails, key=lambda r: (r.get("tl", 0), r["i"])):
-        key = (r.get("class"), tuple(r.get("feat") or []))
+        site = tuple(f for f in (r.get("feat") or []) if f.startswith(("panic@", "at:")))
+        if any(e.get("status") == "open" for e in known):
+            # with open findings every feature set is its own group, so that a new violation of the
+            # same class is never attributed to a known one through a shared representative
+            site = tuple(r.get("feat") or [])
+        key = (r.get("class"), site)
         groups.setdefault(key, []).append(r)
+    MAX_GROUPS = 6
+    if len(groups) > MAX_GROUPS:
+        extra = list(groups.items())[MAX_GROUPS:]
+        print("NOTE: %d more failure groups not minimised: %s" % (len(extra), ", ".join("%s x%d" % (k[0], len(v)) for k, v in extra[:12])), flush=True)
+        groups = collections.OrderedDict(list(groups.items())[:MAX_GROUPS])
 
     for key, rs in groups.items():
         if key[0] and key[0].startswith("harness"):
